@@ -340,23 +340,49 @@ fn gate_level(rep: &mut Report, shard: usize, n: usize, thorough: bool, seed: u6
     defs.push(ColDef::new("V", CT::Int16).range(-5, 5).nullable());
     defs.push(ColDef::new("V", CT::Int32));
     defs.push(ColDef::new("V", CT::Int32).range(0, 1 << 30).nullable());
+    // single-value ranges
+    defs.push(ColDef::new("V", CT::Int16).range(3, 3));
+    defs.push(ColDef::new("V", CT::Int32).range(-7, -7).nullable());
+    defs.push(ColDef::new("V", CT::Int16).range(0, 0).nullable());
     // the tested column as part of the primary key, nullable and not
     defs.push(ColDef::new("V", CT::Str(8)).nullable().key());
     defs.push(ColDef::new("V", CT::Int16).nullable().key());
     defs.push(ColDef::new("V", CT::Str(8)).key());
     let mut rng = Rng::derive(seed, 707, shard as u64);
-    for (di, def) in defs.iter().enumerate() {
-        if di % n != shard {
+    // every definition twice: gates in the creating session, and gates after the package was saved and reopened
+    // (the definition is then the one read back from the catalog)
+    let n_defs = defs.len();
+    for dj in 0..2 * n_defs {
+        let (di, reopened) = (dj % n_defs, dj >= n_defs);
+        let def = &defs[di];
+        if dj % n != shard {
             continue;
         }
-        let tname = format!("G{}", di);
+        let tname = format!("G{}{}", di, if reopened { "r" } else { "" });
         let cols = vec![msi::Column::build("K").primary_key().int32(), def.to_msi()];
         if let Err(e) = pkg.create_table(tname.clone(), cols) {
             rep.inconclusive.push(format!("gate table {} could not be created: {}", def.to_json(), e));
             continue;
         }
+        if reopened {
+            match guarded(move || pkg.into_inner().map(|_| ())) {
+                Ok(Ok(())) => {}
+                _ => {
+                    rep.inconclusive.push("gate package could not be saved".into());
+                    return;
+                }
+            }
+            pkg = match guarded(|| msi::Package::open(m.handle())) {
+                Ok(Ok(p)) => p,
+                _ => {
+                    rep.inconclusive.push("gate package could not be reopened".into());
+                    return;
+                }
+            };
+            rep.count("gate_tables_after_reopen");
+        }
         // candidate values
-        let mut vals: Vec<V> = vec![V::Null, V::Int(0), V::Int(5), V::Int(-6), V::Int(32767), V::Int(32768), V::Int(-32768), V::Int(i32::MIN), V::Int(i32::MAX), V::s(""), V::s("a")];
+        let mut vals: Vec<V> = vec![V::Null, V::Int(0), V::Int(5), V::Int(-6), V::Int(2), V::Int(3), V::Int(4), V::Int(-7), V::Int(-8), V::Int(32767), V::Int(32768), V::Int(-32768), V::Int(i32::MIN), V::Int(i32::MAX), V::s(""), V::s("a")];
         for t in integer_texts().into_iter().step_by(7) {
             vals.push(V::Str(t));
         }
@@ -405,9 +431,11 @@ fn gate_level(rep: &mut Report, shard: usize, n: usize, thorough: bool, seed: u6
         // the same gate through update, for EVERY candidate value (null first), on a row that exists
         let _ = pkg.delete_rows(msi::Delete::from(tname.clone()));
         let mut have_row = false;
+        let mut good: Option<V> = None;
         for v in &vals {
             if ref_valid(def, v) == Verdict::Valid && pkg.insert_rows(msi::Insert::into(tname.clone()).row(vec![msi::Value::Int(1), v.to_msi()])).is_ok() {
                 have_row = true;
+                good = Some(v.clone());
                 break;
             }
         }
@@ -437,6 +465,31 @@ fn gate_level(rep: &mut Report, shard: usize, n: usize, thorough: bool, seed: u6
                     }
                 }
                 rep.case(Some(fnv(format!("gateupd:{}:{:?}:{}", di, ref_valid(def, v), value_fp(v)).as_bytes())));
+                // the same column assigned twice in one update, one of the two values invalid: refused in either order
+                if want == Verdict::Invalid {
+                    let g = good.clone().unwrap();
+                    for invalid_last in [true, false] {
+                        let (a, b) = if invalid_last { (g.to_msi(), v.to_msi()) } else { (v.to_msi(), g.to_msi()) };
+                        let r = guarded(|| pkg.update_rows(msi::Update::table(tname.clone()).set("V", a).set("V", b).with(msi::Expr::col("K").eq(msi::Expr::integer(1)))));
+                        rep.count("gate_updates_repeated_column");
+                        match r {
+                            Err(p) => {
+                                rep.violation(
+                                    format!("C07/update-panic/{}", p.signature()),
+                                    format!("update assigning column {} twice ({} and {}) panicked: {}", def.to_json(), g.to_json(), v.to_json(), p.message),
+                                    json!({"kind": "gate", "column": def.to_json(), "value": v.to_json()}),
+                                );
+                                return;
+                            }
+                            Ok(Ok(())) => rep.violation(
+                                format!("C07/update-gate-repeated-column/{}/{}/accepted-invalid", def.category.unwrap_or(ct_class(def.ty)), if invalid_last { "invalid-last" } else { "invalid-first" }),
+                                format!("update assigning V twice ({} value {} {}) in column {} was accepted", if invalid_last { "valid first, then invalid" } else { "invalid first, then valid" }, v.to_json(), g.to_json(), def.to_json()),
+                                json!({"kind": "gate", "column": def.to_json(), "value": v.to_json()}),
+                            ),
+                            Ok(Err(_)) => {}
+                        }
+                    }
+                }
             }
         }
         // and on key columns: null / invalid values assigned to a nullable and a non-nullable key
